@@ -745,7 +745,7 @@ def do_solve(m, span, spec, op, endo, check, exo, ctx, step):
         'n': n,
         't': t_seen,
         'endo': endo,
-        'endo_offset': list(m.endogenous),
+        'endo_offset': list(ctl.expected_endogenous) if getattr(ctl, 'expected_endogenous', None) is not None else list(endo),
         'check': list(ctl.expected_check) if (spec['kind'] == 'scripted' and ctl.expected_check is not None) else check,
         'drift_name': ((op.get('plan') or {}).get('*') or {}).get('drift', {}).get('name'),
         'exo': exo,
@@ -774,7 +774,7 @@ def do_solve(m, span, spec, op, endo, check, exo, ctx, step):
     E = ref_solver.judge_single(call, lambda sig, ok, detail=None: ctx.check(prop, sig, ok, detail), ctx.probe)
     for nc in ctl.nested_calls:
         # a solve of another period made by a callback while this one was under way: a solve like any other
-        ncall = dict(call, opts=nc['opts'], t=nc['t'], snap=nc['snap'], post=nc['post'], log=nc['log'], raised=nc['raised'], outcome=nc['outcome'], endo_offset=list(m.endogenous), scripted=True)
+        ncall = dict(call, opts=nc['opts'], t=nc['t'], snap=nc['snap'], post=nc['post'], log=nc['log'], raised=nc['raised'], outcome=nc['outcome'], endo_offset=call['endo_offset'], scripted=True)
         if op.get('trace'):
             ncall['snap'].pop('trace', None)
             ncall['post'].pop('trace', None)
@@ -821,6 +821,7 @@ def execute(schedule, ctx):
         return
     n = len(span)
     pool = {0: m}
+    endos = {}  # per object: the endogenous list likewise (what a non-zero offset copies)
     checks = {}  # per object: the check list as the class declared it and this history has edited it since (harness-side)
     for step, op in enumerate(schedule['ops']):
         ctx.step = step
@@ -860,12 +861,20 @@ def execute(schedule, ctx):
             # the instance's own list of endogenous variables (each instance has its own copy of the class's) decides
             # what a non-zero offset copies
             lst = m.endogenous
-            cands = [x for x in spec['endo'] + spec['exo'] if x not in lst] if op['how'] == 'append' else list(lst)
+            want_ = list(endos.get(who, endo))  # (decided on the harness's own account of the list, as for the check list)
+            cands = [x for x in spec['endo'] + spec['exo'] if x not in want_] if op['how'] == 'append' else list(want_)
             if cands:
                 nm_ = cands[op['k'] % len(cands)]
-                lst.append(nm_) if op['how'] == 'append' else lst.remove(nm_)
+                if op['how'] == 'append':
+                    lst.append(nm_)
+                    want_.append(nm_)
+                else:
+                    if nm_ in lst:
+                        lst.remove(nm_)
+                    want_.remove(nm_)
                 ctx.probe('history:instance-endogenous-' + op['how'])
-            ctx.log(step, 'edit_endogenous', list(lst))
+            endos[who] = want_
+            ctx.log(step, 'edit_endogenous', list(want_))
             ctx.outcome('edit_endogenous', 'ok')
             continue
         if op['op'] == 'edit_check':
@@ -918,6 +927,7 @@ def execute(schedule, ctx):
             ctx.outcome('poke', 'ok')
             continue
         probes.get_ctl(m).expected_check = list(checks[who]) if who in checks else None
+        probes.get_ctl(m).expected_endogenous = list(endos[who]) if who in endos else None
         do_solve(m, span, spec, op, endo, check, exo, ctx, step)
 
 
